@@ -532,13 +532,19 @@ func mutateText(t *rapid.T, s string, o textOpts) string {
 		out := append([]string{}, ls...)
 		out[i] = out[i] + rapid.SampledFrom([]string{" ", "\t", "  "}).Draw(t, "ws")
 		return strings.Join(out, "\n")
-	case 10: // invalid utf-8 swap
-		if i := strings.IndexAny(s, "\xff\xfe\x80"); i >= 0 {
+	case 10: // invalid utf-8 swap, or invalid byte <-> a real U+FFFD
+		if i := strings.IndexAny(s, "\xff\xfe\x80"); i >= 0 && (s[i] == 0xff || s[i] == 0xfe || s[i] == 0x80) {
+			if rapid.Bool().Draw(t, "tofffd") {
+				return s[:i] + "\uFFFD" + s[i+1:]
+			}
 			b := []byte(s)
 			b[i] = map[byte]byte{0xff: 0xfe, 0xfe: 0xff, 0x80: 0x81}[b[i]]
 			return string(b)
 		}
-		return s + "\xfe"
+		if i := strings.Index(s, "\uFFFD"); i >= 0 {
+			return s[:i] + "\xe9" + s[i+3:]
+		}
+		return s + rapid.SampledFrom([]string{"\xfe", "\uFFFD"}).Draw(t, "badsfx")
 	default: // move a block
 		if len(ls) < 3 {
 			return s + "\nz"
@@ -556,6 +562,8 @@ func genDiffCase(t *rapid.T) diffCase {
 	switch rapid.IntRange(0, 9).Draw(t, "pairkind") {
 	case 0:
 		b = genText(t, o)
+	case 2:
+		a, b = genUTF8Pair(t)
 	case 1:
 		b = a
 	default:
